@@ -180,6 +180,9 @@ def mux_patterns(sess, op):
         if feasible:
             sess.stats["mux_patterns_visited"] += 1
             _observe(sess, kw, "pattern")
+            # the same pattern seen by an all-phase solve: the kills act in
+            # phase `ph` only, so the selected input changes between phases
+            _observe(sess, {"maxiter": 2000}, "pattern-all-phases")
             sel = next((i for i, l in enumerate(pattern) if l), -1)
             if sel >= 1:
                 sess.stats["mux_selected>=1"] += 1
